@@ -45,7 +45,7 @@ LEVEL = 'exploration'
 # behind the defect; the pinned replays still exercise the trigger itself.
 KNOWN_FALSY_DEFAULT_LOST = True        # default_value 0 / 0.0 / '' -> None
 KNOWN_FRACTIONAL_SECS_LOST = True      # elapsed_secs 1.5 -> 1.0
-KNOWN_DEPTH3_CHILDREN_LOST = True      # grandchild parameter configs dropped
+KNOWN_DEPTH3_CHILDREN_LOST = False     # fixed by e56a6b4 (pinned regression)
 KNOWN_INFEASIBLE_COMPLETION_LOST = True  # end_time ignored for INFEASIBLE
 KNOWN_NO_PREDICTION_LOST = True        # predicted_final_measurement None -> {}
 
